@@ -3,6 +3,7 @@ package c15
 import (
 	stdjson "encoding/json"
 	"fmt"
+	"strconv"
 	"strings"
 	"testing"
 
@@ -25,6 +26,9 @@ type Case struct {
 	Plain string   `json:"expected_plain_json,omitempty"` // set when the schema's example is plain JSON
 	// Cyclic: the type graph has a reference cycle (the recursion cut-off of the example builder can fire)
 	Cyclic bool `json:"type_graph_has_a_cycle,omitempty"`
+	// Graph: the abstract type graph (graph families only); used to decide whether a rejected
+	// example is the recorded cut-off finding or something else
+	Graph *ref.Graph `json:"graph,omitempty"`
 }
 
 func init() {
@@ -54,14 +58,20 @@ func check(t run.TB, c Case) bool {
 		run.Fail(t, chk, c, "Example() is not well-formed JSON: %s", ex)
 	}
 	if v := lib.Validate(s, ex); !v.OK {
-		cutoff := v.Code == 205 || v.Code == 204 // 204: the missing required key sits inside an alternative list
-		if v.Code == 608 {
-			// the omitted element is an array item that minItems requires
-			for _, ty := range c.Spec.Types {
-				cutoff = cutoff || strings.Contains(ty.Text, "minItems")
+		// 205 / 204: a required key is missing (204: inside an alternative list); 608: an array item
+		// that minItems requires. The recorded finding is narrower than that: the omitted position
+		// refers to types that have already been entered twice on the path from the root (the
+		// builder's recursion cut-off), and nothing else is missing.
+		// (inside an alternative list the reported code is that of whichever alternative failed last,
+		// e.g. 206 for a key the other alternative does not know,
+		// so the code is not used)
+		cutoff := c.Cyclic && c.Graph != nil
+		if cutoff {
+			if doc, perr := ref.Parse(ex); perr != nil || !cutoffExplains(c.Graph, doc) {
+				cutoff = false
 			}
 		}
-		if cutoff && c.Cyclic && run.MatchKnown("C15-cutoff-omits-required-property") {
+		if cutoff && run.MatchKnown("C15-cutoff-omits-required-property") {
 			return true
 		}
 		run.Fail(t, chk, c, "Example() %s is rejected by its own schema: %v", ex, v)
@@ -120,6 +130,157 @@ func recursionGraph(t *rapid.T) lib.Spec {
 	return lib.Spec{Schema: root, Types: []lib.Named{{Name: "@r", Text: text}, {Name: "@leaf", Text: "5"}}}
 }
 
+// cutoffExplains walks the example along the type graph and reports whether (a) something
+// required is missing and (b) every missing required position names only types that were already
+// entered twice on the path to it - the documented cut-off ("a type is not processed more than
+// twice") firing below a required position. Anything else missing is not the recorded finding.
+func cutoffExplains(g *ref.Graph, doc *ref.Value) bool {
+	found, other := 0, 0
+	var walk func(n *ref.SNode, v *ref.Value, keysOpt bool, counts map[string]int, depth int)
+	// cutName: the builder yields nothing for this name - it has been entered twice already, or it
+	// is a pure reference / list all of whose members yield nothing
+	var cutName func(nm string, counts map[string]int, depth int) bool
+	cutName = func(nm string, counts map[string]int, depth int) bool {
+		if counts[nm] >= 2 {
+			return true
+		}
+		t := g.Types[nm]
+		if t == nil || t.Kind != ref.SRef || depth > 20 {
+			return false
+		}
+		counts[nm]++
+		defer func() { counts[nm]-- }()
+		for _, m := range t.Names {
+			if !cutName(m, counts, depth+1) {
+				return false
+			}
+		}
+		return true
+	}
+	cut := func(n *ref.SNode, counts map[string]int) bool {
+		if n.Kind != ref.SRef {
+			return false
+		}
+		for _, nm := range n.Names {
+			if !cutName(nm, counts, 0) {
+				return false
+			}
+		}
+		return true
+	}
+	var props func(n *ref.SNode, keysOpt bool, seen map[string]bool) []struct {
+		p   *ref.SProp
+		opt bool
+	}
+	props = func(n *ref.SNode, keysOpt bool, seen map[string]bool) (out []struct {
+		p   *ref.SProp
+		opt bool
+	}) {
+		for i := range n.Props {
+			out = append(out, struct {
+				p   *ref.SProp
+				opt bool
+			}{&n.Props[i], keysOpt})
+		}
+		if r := n.Rule("allOf"); r != nil {
+			for _, a := range r.AllOf {
+				if t := g.Types[a]; t != nil && !seen[a] {
+					seen[a] = true
+					out = append(out, props(t, false, seen)...)
+				}
+			}
+		}
+		return out
+	}
+	walk = func(n *ref.SNode, v *ref.Value, keysOpt bool, counts map[string]int, depth int) {
+		if depth > 60 || v == nil {
+			return
+		}
+		if n.Kind == ref.SRef {
+			// the alternative whose root kind fits the value
+			for _, nm := range n.Names {
+				t := g.Types[nm]
+				if t == nil || (len(n.Names) > 1 && cutName(nm, counts, 0)) {
+					continue // the builder takes the first alternative that still yields something
+				}
+				fits := t.Kind == ref.SRef || (t.Kind == ref.SObj && v.Kind == ref.KObject) || (t.Kind == ref.SArr && v.Kind == ref.KArray) ||
+					(t.Kind == ref.SLit && v.Kind != ref.KObject && v.Kind != ref.KArray)
+				if fits {
+					counts[nm]++
+					walk(t, v, false, counts, depth+1)
+					counts[nm]--
+					return
+				}
+			}
+			return
+		}
+		switch n.Kind {
+		case ref.SObj:
+			if v.Kind != ref.KObject {
+				return
+			}
+			all := props(n, keysOpt, map[string]bool{})
+			for _, pr := range all {
+				if pr.p.Shortcut {
+					// members that no literal key names belong to the shortcut entry
+					for i := range v.Members {
+						named := false
+						for _, q := range all {
+							named = named || (!q.p.Shortcut && q.p.Key == v.Members[i].Key)
+						}
+						if ok, _ := ref.KeyTypeAccepts(g, pr.p.Key, v.Members[i].Key); !named && ok {
+							walk(pr.p.Val, v.Members[i].Val, pr.opt, counts, depth+1)
+						}
+					}
+					continue
+				}
+				var mv *ref.Value
+				for i := range v.Members {
+					if v.Members[i].Key == pr.p.Key {
+						mv = v.Members[i].Val
+					}
+				}
+				req := !pr.opt
+				if b, ok := pr.p.Val.BoolRule("optional"); ok {
+					req = !b
+				}
+				if mv == nil {
+					if req {
+						if cut(pr.p.Val, counts) {
+							found++
+						} else {
+							other++
+						}
+					}
+					continue
+				}
+				walk(pr.p.Val, mv, pr.opt, counts, depth+1)
+			}
+		case ref.SArr:
+			if v.Kind != ref.KArray {
+				return
+			}
+			for i, it := range n.Items {
+				if i >= len(v.Items) {
+					if r := n.Rule("minItems"); r != nil {
+						if k, _ := strconv.Atoi(r.Tok); k > len(v.Items) {
+							if cut(it, counts) {
+								found++
+							} else {
+								other++
+							}
+						}
+					}
+					break
+				}
+				walk(it, v.Items[i], keysOpt, counts, depth+1)
+			}
+		}
+	}
+	walk(g.Root, doc, g.KeysOptional, map[string]int{}, 0)
+	return found > 0 && other == 0
+}
+
 // hasCycle: some named type reaches itself through references of any form.
 func hasCycle(g *ref.Graph) bool {
 	state := map[string]int{}
@@ -166,6 +327,17 @@ func TestExample(t *testing.T) {
 			if len(gc.G.Missing()) > 0 {
 				return
 			}
+			if rapid.Bool().Draw(t, "wideRoot") {
+				// a root that uses the same few types at several required positions (what one position
+				// leaves behind in the builder is seen by the next)
+				root := &ref.SNode{Kind: ref.SObj}
+				for k, n := 0, rapid.IntRange(3, 6).Draw(t, "wideN"); k < n; k++ {
+					key := fmt.Sprintf("w%d", k)
+					root.Props = append(root.Props, ref.SProp{Key: key, KeyTok: `"` + key + `"`,
+						Val: &ref.SNode{Kind: ref.SRef, Names: []string{rapid.SampledFrom(gc.Order).Draw(t, "wideT")}}})
+				}
+				gc.G.Root = root
+			}
 			types, root := gc.G.Inhabited()
 			all := root
 			for name := range gc.G.Types {
@@ -192,7 +364,7 @@ func TestExample(t *testing.T) {
 			for _, ty := range pg.Types {
 				sp.Types = append(sp.Types, lib.Named{Name: ty.Name, Text: ty.Text})
 			}
-			c = Case{Spec: sp, Cyclic: true}
+			c = Case{Spec: sp, Cyclic: true, Graph: gc.G}
 			feature = true
 			run.Label("family:reference-topology")
 		case 0:
@@ -248,7 +420,7 @@ func TestExample(t *testing.T) {
 			for _, ty := range pg.Types {
 				sp.Types = append(sp.Types, lib.Named{Name: ty.Name, Text: ty.Text})
 			}
-			c = Case{Spec: sp, Cyclic: hasCycle(gc.G)}
+			c = Case{Spec: sp, Cyclic: hasCycle(gc.G), Graph: gc.G}
 			feature = true
 			run.Label("family:type-graph")
 		}
